@@ -17,7 +17,7 @@ import random
 import subprocess
 import sys
 
-from . import c01, engine, gen, lang, lib, obs, runner, sched, shrink
+from . import c01, c15h, engine, gen, lang, lib, obs, runner, sched, shrink
 from .engine import MutableAlias, is_object_slot
 
 PROP = "C15"
@@ -335,6 +335,8 @@ def minimise(program, victim, st, okw):
 def replay(payload):
     if payload.get("kind") == "restart":
         return replay_restart(payload)
+    if payload.get("kind") == "holder":
+        return c15h.replay(payload)
     prog, v, st, okw = payload["program"], payload["victim"], payload.get("share_tables", True), payload.get("okw") or {}
     if payload.get("config", "seq") == "seq":
         env = engine.execute(prog, share_tables=st)
@@ -498,8 +500,9 @@ def replay_restart(payload):
 
 # ------------------------------------------------------------------ batch / evidence
 TIERS = {
-    "quick": {"runs": 30000, "chunk": 50, "wall_cap": 900, "restart_frac": 0.3, "hashseeds": [1]},
-    "thorough": {"runs": 150000, "chunk": 200, "wall_cap": 5400, "restart_frac": 0.5, "hashseeds": [1, 4242]},
+    "quick": {"runs": 30000, "chunk": 50, "wall_cap": 900, "restart_frac": 0.3, "hashseeds": [1], "holder_frac": 0.4},
+    "thorough": {"runs": 150000, "chunk": 200, "wall_cap": 5400, "restart_frac": 0.5, "hashseeds": [1, 4242],
+                 "holder_frac": 1.0},
 }
 
 
@@ -520,6 +523,22 @@ def batch(task):
         runner.note_violations(len(res["violations"]))
         if len(agg["violations"]) >= 12 or runner.stop_requested():
             break
+    # holder mode: a mutable-mode sub-query embedded in a duplicated parent and changed in place afterwards (c15h)
+    hk = max(1, int((hi - lo) * tier.get("holder_frac", 0.4)))
+    try:
+        ho = runner.guarded(c15h.run_many, 120, seed, lo, lo + hk)
+    except (runner.RunTimeout, lang.HarnessError) as e:
+        agg["harness"].append({"run": lo, "why": "holder: " + repr(e)[:200]})
+        ho = None
+    if ho:
+        agg["holder_runs"] += ho["n"] - ho["discards"]
+        agg["holder_discards"] += ho["discards"]
+        agg["holder_reached"] += ho["reached"]
+        agg["holder_embeds"].update(ho["embeds"])
+        agg["holder_hows"].update(ho["hows"])
+        for sig, payload, run in ho["violations"]:
+            agg["violations"].append((sig, payload, run))
+        runner.note_violations(len(ho["violations"]))
     k = max(1, int((hi - lo) * tier["restart_frac"]))
     sub = list(range(lo, hi))[:k]
     for hs in tier["hashseeds"]:
@@ -538,7 +557,8 @@ def new_agg():
             "nontrivial_shapes": set(), "configs": collections.Counter(), "samples": [], "schedules": set(),
             "preempt_in_lib": 0, "hows": collections.Counter(), "dup_kinds": collections.Counter(), "ndup": 0,
             "mutable_objs": 0, "calls_after_dup": 0, "restarts": 0, "restart_continuations": 0, "fault_runs": 0,
-            "alias_fx": 0}
+            "alias_fx": 0, "holder_runs": 0, "holder_discards": 0, "holder_reached": 0,
+            "holder_embeds": collections.Counter(), "holder_hows": collections.Counter()}
 
 
 def fold(agg, res, program):
@@ -585,7 +605,9 @@ def merge(aggs):
 
 ASSUMPTIONS = [
     "model: dup is the identity on construction expressions; the reference is the linear rebuild of the expression",
-    "mutable-mode (immutable=False) builders are heap leaves: they receive calls and dup events but are never embedded",
+    "general heap: mutable-mode (immutable=False) builders are leaves (they receive calls and dup events, never embedded); "
+    "holder mode (c15h): a mutable-mode sub-query IS embedded at one of 17 positions of a parent, the parent duplicated "
+    "by deepcopy/pickle, the sub-query of one side changed in place; oracle = the untouched side renders as before",
     "cross-process comparison excludes hash values; in-process comparison includes hash and == panels",
     "pre-emption/injection at LINE or INSTRUCTION boundaries of library frames; copy/pickle internals in C are atomic",
     "seeded sampling, not exhaustive",
@@ -612,6 +634,11 @@ def evidence(agg, tier, seed, wall):
         "builder_calls_on_a_duplicate_or_its_original_after_the_dup": agg["calls_after_dup"],
         "mutable_mode_objects": agg["mutable_objs"],
         "automatic_aliases_written_into_shared_arguments": agg["alias_fx"],
+        "holder_mode_runs_embedded_mutable_subquery_changed_in_place_after_dup": agg["holder_runs"],
+        "holder_mode_runs_where_the_call_changed_the_touched_sides_render": agg["holder_reached"],
+        "holder_mode_embedding_positions": dict(agg["holder_embeds"]),
+        "holder_mode_mechanisms": dict(agg["holder_hows"]),
+        "holder_mode_discards": agg["holder_discards"],
         "restarts_pickle_to_other_interpreter": agg["restarts"],
         "ops_continued_on_restored_objects": agg["restart_continuations"],
         "slots_compared_with_rebuild": agg["n_cmp"],
